@@ -1201,8 +1201,12 @@ class FortranBackend(BaseBackend):
                 # first character (a continuation line that starts with its operator, `& *zbig0_v1*sin(...)`, must be broken
                 # at a LATER operator - otherwise the fallback below cuts through an identifier)
                 i = code_tmp.find(op, 1)
-                while i > 1 and op in ('+', '-') and code_tmp[i - 1] in 'dDeE' and (code_tmp[i - 2].isdigit() or
-                                                                                   code_tmp[i - 2] == '.'):
+                while i >= 1:
+                    exponent_sign = i > 1 and op in ('+', '-') and code_tmp[i - 1] in 'dDeE' and \
+                        (code_tmp[i - 2].isdigit() or code_tmp[i - 2] == '.')
+                    second_star = op == '*' and code_tmp[i - 1] == '*'          # never split the two characters of `**`
+                    if not exponent_sign and not second_star:
+                        break
                     i = code_tmp.find(op, i + 1)
                 return i
             indices = [i for i in (_first(op) for op in ops if op in code_tmp) if i >= 0]
